@@ -30,6 +30,8 @@ def rules_xml(sc):
                   f'<start_sequence>{p["seq"]}</start_sequence>')
             if p.get('stopseq') is not None:
                 x += f'<stop_sequence>{p["stopseq"]}</stop_sequence>'
+            if p.get('strategy'):
+                x += f'<starting_failure_strategy>{p["strategy"]}</starting_failure_strategy>'
             x += (f'<required>{"true" if p.get("required") else "false"}</required>'
                   f'<wait_exit>{"true" if p.get("wait_exit") else "false"}</wait_exit></program>')
         x += '</programs></application>'
@@ -65,7 +67,14 @@ class Scenario:
         n = sc.get('n', 2)
         cfg = cl.Config(n=n, sync=('LIST', 'TIMEOUT'))
         self.cfg = cfg
-        self.c = cl.make_cluster(cfg, programs=programs(sc), rules_xml=rules_xml(sc))
+        from simcluster import Cluster
+        layout = cfg.layout(programs(sc))
+        # programs that an instance does not configure (no [program] section there)
+        for node, ns in sc.get('absent', []):
+            a, pn = ns.split(':')
+            layout[node]['programs'] = [x for x in layout[node]['programs']
+                                        if not (x['name'] == pn and a in x['groups'])]
+        self.c = Cluster(layout, options=cfg.options(), rules_xml=rules_xml(sc))
         self.c.auto_orders = True
         self.d = Driver(self.c)
         self.idx = proc_index(sc)
@@ -218,9 +227,17 @@ class Scenario:
 
     def run(self):
         sc, c, d = self.sc, self.c, self.d
-        for n in c.nodes:
-            d.boot(n)
+        skew = sc.get('skew')
+        if skew:
+            # the Supervisors were not started together: tick counters differ between instances
+            d.boot(skew[0])
             self.sync()
+            for _ in range(skew[1]):
+                self.round()
+        for n in c.nodes:
+            if not c.nodes[n].alive:
+                d.boot(n)
+                self.sync()
         trig = sc['trigger']
         pre = sc.get('pre_rounds', 7)
         lose = sc.get('lose')
@@ -278,7 +295,8 @@ class Scenario:
                               'stopseq': p.get('stopseq') if p.get('stopseq') is not None else p['seq'],
                               'wait_exit': bool(p.get('wait_exit')), 'required': bool(p.get('required')) and p['seq'] > 0,
                               'target': int(p['target'][1]), 'startsecs': p.get('startsecs', 1),
-                              'behaviour': p.get('behaviour', 'normal')})
+                              'behaviour': p.get('behaviour', 'normal'),
+                              'fstrategy': p.get('strategy') or a.get('strategy', 'ABORT')})
         apps = [{'name': a['name'], 'seq': a['seq'],
                  'stopseq': a.get('stopseq') if a.get('stopseq') is not None else a['seq'],
                  'strategy': a.get('strategy', 'ABORT')} for a in sc['apps']]
